@@ -166,17 +166,17 @@ def config(tier, seed):
                      best0s="{2}", MaxReq=2, MaxFail=0, AllowStop=False, FalsePos=False, free=500)]
     rc, rcat = random_chain(rng, 4)
     return [
-        dict(name="t3", chains=[CH3], cat=CAT3, best0s="{2, 3}", MaxReq=3, MaxFail=1,
+        dict(name="t3", chains=[CH3], cat=CAT3[:7], best0s="{2, 3}", MaxReq=3, MaxFail=1,
              AllowStop=False, FalsePos=False, free=8000),
         dict(name="t2s", chains=[CH2S], cat=CAT2S, best0s="{1, 2}", MaxReq=3, MaxFail=1,
              AllowStop=False, FalsePos=False, free=4000),
         dict(name="t3s", chains=[CH3], cat=CAT3, best0s="{1, 2, 3}", MaxReq=2, MaxFail=2,
              AllowStop=True, FalsePos=True, free=4000),
-        dict(name="t4", chains=[CH4], cat=CAT4, best0s="{3, 4}", MaxReq=2, MaxFail=2,
+        dict(name="t4", chains=[CH4], cat=CAT4, best0s="{3, 4}", MaxReq=2, MaxFail=1,
              AllowStop=True, FalsePos=True, free=4000),
         dict(name="t5", chains=[CH5], cat=CAT5, best0s="{4, 5}", MaxReq=2, MaxFail=1,
              AllowStop=True, FalsePos=False, free=4000),
-        dict(name="t5g", chains=[CH5], cat=CAT5, best0s="{1, 2}", MaxReq=2, MaxFail=1,
+        dict(name="t5g", chains=[CH5], cat=CAT5, best0s="{1, 2}", MaxReq=2, MaxFail=0,
              AllowStop=False, FalsePos=False, free=3000),
         dict(name="rnd", chains=[rc], cat=rcat, best0s="{3, 4}", MaxReq=2, MaxFail=1,
              AllowStop=True, FalsePos=False, free=3000),
